@@ -202,5 +202,5 @@ CLAIMED = {
 }
 
 PENDING_REASON = 'not claimed'
-HOOK_COMMITS = ['2d093ff']
+HOOK_COMMITS = ['2d093ff', '983d168']
 ALL = ['C%02d' % i for i in range(1, 21)]
